@@ -188,6 +188,14 @@ def extract(path_or_doc):
                 st[sr.getSpecies()] = st.get(sr.getSpecies(), 0.0) + sign * c
         rf = r.getPlugin("fbc")
         lb = ub = None
+        kl = r.getKineticLaw()
+        if rf is None and kl is not None:
+            # COBRA-toolbox flavour (no fbc package): bounds and objective coefficient are kinetic-law parameters
+            kp = {q.getId(): q.getValue() for q in kl.getListOfParameters()}
+            lb, ub = kp.get("LOWER_BOUND"), kp.get("UPPER_BOUND")
+            if kp.get("OBJECTIVE_COEFFICIENT"):
+                out["objective"][r.getId()] = kp["OBJECTIVE_COEFFICIENT"]
+                out["direction"] = "max"
         if rf is not None:
             if rf.isSetLowerFluxBound():
                 lb = params.get(rf.getLowerFluxBound())
@@ -452,6 +460,72 @@ def check_third_party(features, tmpdir):
     return problems, "checked"
 
 
+# legacy documents (SBML level 2, no fbc package): bounds and objective coefficients as kinetic-law parameters
+LEGACY = [(nb, obj, order) for nb in (0, 1, 2) for obj in ("R_UPT", "R_CONV", "R_SEC") for order in ("doc", "reversed")]
+
+
+def make_legacy(n_boundary, objective, order, out_path):
+    def klaw(lb, ub, oc):
+        return ('<kineticLaw><math xmlns="http://www.w3.org/1998/Math/MathML"><ci> FLUX_VALUE </ci></math><listOfParameters>'
+                f'<parameter id="LOWER_BOUND" value="{lb}"/><parameter id="UPPER_BOUND" value="{ub}"/>'
+                f'<parameter id="FLUX_VALUE" value="0"/><parameter id="OBJECTIVE_COEFFICIENT" value="{oc}"/>'
+                '</listOfParameters></kineticLaw>')
+
+    def rxn(rid, left, right, lb, ub, coef=1):
+        return (f'<reaction id="{rid}" reversible="{"true" if lb < 0 else "false"}"><listOfReactants>'
+                f'<speciesReference species="{left}" stoichiometry="1"/></listOfReactants><listOfProducts>'
+                f'<speciesReference species="{right}" stoichiometry="{coef}"/></listOfProducts>'
+                f'{klaw(lb, ub, 1 if rid == objective else 0)}</reaction>')
+
+    bc = ['boundaryCondition="true"' if k < n_boundary else "" for k in range(2)]
+    rs = [rxn("R_UPT", "M_a_b", "M_a_c", 0, 10), rxn("R_CONV", "M_a_c", "M_p_c", -5, 1000, 2), rxn("R_SEC", "M_p_c", "M_p_b", 0, 30)]
+    if order == "reversed":
+        rs = rs[::-1]
+    doc = ('<?xml version="1.0" encoding="UTF-8"?><sbml xmlns="http://www.sbml.org/sbml/level2/version4" level="2" version="4">'
+           '<model id="legacy"><listOfCompartments><compartment id="c"/><compartment id="b"/></listOfCompartments><listOfSpecies>'
+           f'<species id="M_a_b" name="a" compartment="b" {bc[0]}/><species id="M_p_b" name="p" compartment="b" {bc[1]}/>'
+           '<species id="M_a_c" name="a" compartment="c"/><species id="M_p_c" name="p" compartment="c"/></listOfSpecies>'
+           f'<listOfReactions>{"".join(rs)}</listOfReactions></model></sbml>')
+    with open(out_path, "w") as fh:
+        fh.write(doc)
+
+
+def check_legacy(item, tmpdir):
+    import cobra.io as cio
+    import libsbml
+
+    problems = []
+    logging.disable(logging.NOTSET)
+    cap = LogCapture()
+    root = logging.getLogger("cobra")
+    root.addHandler(cap)
+    try:
+        with warnings.catch_warnings():
+            warnings.simplefilter("ignore")
+            out = os.path.join(tmpdir, "legacy.xml")
+            make_legacy(item[0], item[1], item[2], out)
+            doc = libsbml.readSBMLFromFile(out)
+            doc.setConsistencyChecks(libsbml.LIBSBML_CAT_UNITS_CONSISTENCY, False)
+            doc.setConsistencyChecks(libsbml.LIBSBML_CAT_MODELING_PRACTICE, False)
+            doc.checkConsistency()
+            if any(doc.getError(i).getSeverity() >= libsbml.LIBSBML_SEV_ERROR for i in range(doc.getNumErrors())):
+                return [], "not valid SBML"
+            cap.records = []
+            try:
+                model = cio.read_sbml_model(out)
+            except Exception as exc:
+                return [("reading a valid legacy document raised " + type(exc).__name__, repr(exc)[:300])], "checked"
+            # (the notices about added exchange reactions name boundary species, not the document's reactions)
+            # the reader's notices about the discouraged kinetic-law parameters name every reaction: they announce no
+            # change of content and do not excuse one
+            log = [(lv, msg) for lv, msg in cap.records if not any(r in msg for r in ("UPT", "CONV", "SEC"))]
+            for kind, detail in compare_with_extraction(model, extract(out), log):
+                problems.append((kind, detail))
+    finally:
+        root.removeHandler(cap)
+    return problems, "checked"
+
+
 # ---------------------------------------------------------------------------------------
 
 def run_task(payload):
@@ -473,6 +547,13 @@ def run_task(payload):
                 for kind, detail in _check_case({"bench_op": op}, item[2], "default", tmpdir):
                     violations.append(({"source": "bench", "problem": kind, "bench_op": item[1][0] if item[1] else "none"},
                                        {"bench": item[1], "transport": item[2]}, f"bench after {item[1]}\n{kind}\n{detail}"))
+                continue
+            if item[0] == "legacy":
+                probs, verdict = check_legacy(item[1], tmpdir)
+                stats["legacy_" + verdict.replace(" ", "_")] = stats.get("legacy_" + verdict.replace(" ", "_"), 0) + 1
+                for kind, detail in probs:
+                    violations.append(({"source": "legacy_document", "boundary_species": item[1][0], "problem": kind},
+                                       {"legacy": list(item[1])}, f"{item[1]}\n{kind}\n{detail}"))
                 continue
             if item[0] == "third":
                 probs, verdict = check_third_party(item[1], tmpdir)
@@ -539,6 +620,10 @@ def replay(case):
             probs = _check_case({"bench_op": op}, case["transport"], "default", tmpdir)
             return [{"sig": {"source": "bench", "problem": k, "bench_op": case["bench"][0] if case["bench"] else "none"},
                      "detail": dd} for k, dd in probs]
+        if "legacy" in case:
+            probs, _ = check_legacy(tuple(case["legacy"]), tmpdir)
+            return [{"sig": {"source": "legacy_document", "boundary_species": case["legacy"][0], "problem": k}, "detail": d}
+                    for k, d in probs]
         if "third" in case:
             probs, _ = check_third_party(tuple(case["third"]), tmpdir)
             return [{"sig": {"source": "third_party", "features": "+".join(case["third"]), "problem": k}, "detail": d}
@@ -583,6 +668,8 @@ def explore(ctx):
     cases = cases[off:] + cases[:off]
     payloads = [{"cases": cases[i:i + 20]} for i in range(0, len(cases), 20)]
     payloads += [{"cases": [f]} for f in files] + [{"cases": third[i:i + 6]} for i in range(0, len(third), 6)]
+    legacy = [("legacy", x) for x in LEGACY]
+    payloads += [{"cases": legacy[i:i + 6]} for i in range(0, len(legacy), 6)]
     from .. import bench
     from ..benchsearch import _l
 
@@ -622,7 +709,7 @@ def explore(ctx):
                 "path; f_replace={} for SBML-safe ids) + %d shipped SBML files + third-party shapes (%d single, all pairs) "
                 "derived with libsbml; oracles: validator, content equality to 15 digits, idempotence, independent libsbml "
                 "extraction with log capture" % (len(files), len(THIRD_PARTY)),
-        "exhaustive": True, "family_cases": len(cases), "bench_corpus_states": len(bcases), "files": len(files), "third_party_documents": len(third), "stats": stats,
+        "exhaustive": True, "family_cases": len(cases), "bench_corpus_states": len(bcases), "files": len(files), "third_party_documents": len(third), "legacy_documents": len(legacy), "stats": stats,
     })
     ctx.sample({"features_off_default": iomodels.describe(models[len(models) // 2]), "transport": "path"})
     ctx.sample({"third_party": list(third[3][1])})
